@@ -13,6 +13,7 @@ mod common;
 mod debug;
 mod genproj;
 mod project;
+mod proptest;
 mod driver;
 mod hashseed;
 mod rng;
@@ -24,9 +25,10 @@ use driver::Engine;
 static BUDGET: budget::BudgetEngine = budget::BudgetEngine;
 static BUILD: build::BuildEngine = build::BuildEngine;
 static SCHED: sched::SchedEngine = sched::SchedEngine;
+static PROPT: proptest::PropEngine = proptest::PropEngine;
 
 fn engines() -> Vec<&'static dyn Engine> {
-    vec![&BUDGET, &BUILD, &SCHED]
+    vec![&BUDGET, &BUILD, &SCHED, &PROPT]
 }
 
 fn find_engine(name: &str) -> Option<&'static dyn Engine> {
